@@ -113,6 +113,11 @@ theorem uw_queueMaxStreamId {s s' : State} {b : Bool} (h : s.queueMaxStreamId = 
     rw [← h.1]
     try rfl
 
+theorem uw_queueMaxIf {s s' : State} {c : Bool} (h : s.queueMaxIf c = some s') : s'.uw = s.uw := by
+  rcases queueMaxIf_cases h with rfl | ⟨b, hq⟩
+  · rfl
+  · exact uw_queueMaxStreamId hq
+
 /-! ### sender-side operations -/
 
 theorem uw_write {s s' : State} {id n : Nat} {r : Except WriteErr Nat} (h : s.write id n = some (s', r)) :
@@ -471,8 +476,9 @@ theorem uw_stop {s s' : State} {id code : Nat} {b : Bool}
        first
         | exact f1
         | (have f2 := uw_freeRecvIf ‹State.freeRecvIf _ _ _ = some _›
+           have f2q := uw_queueMaxIf ‹State.queueMaxIf _ _ = some _›
            have f3 := uw_creditAndQueue ‹State.creditAndQueue _ _ = some _›
-           exact f3.trans (f2.trans ((uw_queueStopSending _ _ _ _).trans f1))))
+           exact f3.trans (f2q.trans (f2.trans ((uw_queueStopSending _ _ _ _).trans f1)))))
 
 theorem uw_recvReceivedReset {s s' : State} {id : Nat} {r : Option (Option Nat)}
     (h : s.recvReceivedReset id = some (s', r)) : s'.uw = s.uw := by
